@@ -1648,8 +1648,15 @@ static const uint8_t *unmarshal_one(
             data += sizeof(void *);
 
             if (flags & JANET_MARSHAL_DECREF) {
-                /* Decrement immediately and don't bother putting into heap */
-                janet_abstract_decref(u.ptr);
+                /* Decrement immediately and don't bother putting into heap. If the discarded message
+                 * held the last reference, nobody else will ever release the object. */
+                if (0 == janet_abstract_decref(u.ptr)) {
+                    JanetAbstractHead *head = janet_abstract_head(u.ptr);
+                    if (head->type->gc) {
+                        head->type->gc(head->data, head->size);
+                    }
+                    janet_free(head);
+                }
                 *out = janet_wrap_nil();
             } else {
                 *out = janet_wrap_abstract(u.ptr);
